@@ -90,6 +90,8 @@ def main():
     if "mut" in a.what:
         for p in sel:
             for m in controls.load_catalogue(p):
+                if "diff" in m:
+                    continue       # seeded changes are replayed by `seed`
                 jobs.append(("mut", "%s/%s" % (p, m["name"]), m["edits"], [p], True))
     if "equiv" in a.what:
         seen = set()
